@@ -809,6 +809,87 @@ def probe_none(ctx, st):
                               rep, key="probe-list")
 
 
+# ------------------------------------------------------------------ sugar inside an imported file
+def _import_worker(job):
+    """the same sugared rules read directly and through `import` (root.pg: Root: lib.S): same results"""
+    import os
+    import shutil
+    import tempfile
+    import parglare
+    from parglare import Grammar, Parser
+    from lib import impl
+    out = {"name": job["name"], "res": {}}
+    d = tempfile.mkdtemp(prefix="c13imp")
+    try:
+        with open(os.path.join(d, "lib.pg"), "w") as f:
+            f.write(job["text_s"])
+        with open(os.path.join(d, "root.pg"), "w") as f:
+            f.write("import 'lib.pg' as lib;\nRoot: lib.%s;\n" % job["start"])
+        ps = []
+        for how in ("direct", "import"):
+            try:
+                with impl.time_limit(20), impl.quiet():
+                    g = Grammar.from_string(job["text_s"]) if how == "direct" else \
+                        Grammar.from_file(os.path.join(d, "root.pg"))
+                    g.file_path = None
+                    ps.append((Parser(g), "ok"))
+            except BaseException as e:  # noqa
+                ps.append((None, impl.exc_kind(e) + ": " + str(e)[:120]))
+        out["construct"] = [x[1].split(":")[0] for x in ps]
+        out["msgs"] = [x[1] for x in ps]
+        if ps[0][0] is not None and ps[1][0] is not None:
+            for w in job["inputs"]:
+                r = []
+                for p, _ in ps:
+                    try:
+                        with impl.time_limit(5):
+                            r.append(["ok", _canon(p.parse(w))])
+                    except parglare.SyntaxError as e:
+                        r.append(["rej", e.location.start_position])
+                    except BaseException as e:  # noqa
+                        r.append(["exc", impl.exc_kind(e)])
+                out["res"][w] = r
+    finally:
+        shutil.rmtree(d, ignore_errors=True)
+    return out
+
+
+def imported_sugar(ctx, st, info, results, quick):
+    jobs = []
+    for rec, r in zip(info, results):
+        if rec["fam"] not in ("clean", "curated") or not rec.get("nc") or has_greedy(rec["ast"]) \
+                or r.get("g_s") != "ok" or not rec.get("text_e"):
+            continue
+        ins = sorted((r.get("res", {}).get("lr", {}) or {}).get("inputs", {}).keys())[:40]
+        jobs.append({"name": rec["name"], "text_s": rec["text_s"], "start": rec["ast"]["rules"][0][0],
+                     "inputs": ins})
+        if len(jobs) >= (40 if quick else 400):
+            break
+    with mp.Pool(common.NPROC) as pool:
+        outs = pool.map(_import_worker, jobs, chunksize=1)
+    st["imported_sugar_grammars"] = len(jobs)
+    st["imported_sugar_inputs"] = 0
+    for job, o in zip(jobs, outs):
+        rep = {"grammar": job["text_s"], "how": "lib.pg holds the grammar; root.pg: import 'lib.pg' as lib; Root: lib.%s;"
+               % job["start"]}
+        c = o["construct"]
+        if c[0] != c[1]:
+            if "Timeout" in c:
+                continue
+            ctx.violation("sugared rules load directly (%s) but not through an import (%s)" % (o["msgs"][0], o["msgs"][1]),
+                          rep, key="import-load")
+            continue
+        for w, (a, b) in o["res"].items():
+            st["imported_sugar_inputs"] += 1
+            want = a        # a production with one right-hand-side symbol passes its result through
+            if "exc" in (a[0], b[0]) and "Timeout" in (a[1], b[1]):
+                continue
+            if b != want:
+                ctx.violation("sugared rules mean something else inside an imported file: direct %s, imported %s"
+                              % (json.dumps(a)[:150], json.dumps(b)[:150]), dict(rep, input=w), key="import-result")
+                break
+
+
 # ------------------------------------------------------------------ run
 def run(ctx):
     cases = gen_cases(ctx)
@@ -1075,6 +1156,7 @@ def run(ctx):
                                 ctx.violation("greedy: expected the single maximal-munch result %s, got %s"
                                               % (want, json.dumps(s[1])), rep2, key="greedy-munch")
     probe_none(ctx, st)
+    imported_sugar(ctx, st, info, results, quick)
     cov = {
         "evaluations": st["parses_compared"] + st["dump_compared"] + st.get("probe_none_cases", 0),
         "distinct_nontrivial": len(distinct),
